@@ -242,6 +242,29 @@ func (t *Task) Delete(pg wpg.Conn, n uint64) error {
 	if err != nil {
 		return fmt.Errorf("deleting block from task table: %w", err)
 	}
+	// The deleted position may cover several blocks (batch_size > 1).
+	// Indexing resumes after the previous position, so the rows of every
+	// block after it are removed, not only those of block n.
+	const pq = `
+		select num
+		from shovel.task_updates
+		where src_name = $1
+		and ig_name = $2
+		order by num desc
+		limit 1
+	`
+	var prev uint64
+	err = pg.QueryRow(t.ctx, pq, t.srcName, t.destConfig.Name).Scan(&prev)
+	switch {
+	case errors.Is(err, pgx.ErrNoRows):
+		if t.start > 0 && t.start < n {
+			n = t.start
+		}
+	case err != nil:
+		return fmt.Errorf("querying for previous position: %w", err)
+	case prev+1 < n:
+		n = prev + 1
+	}
 	err = t.dests[0].Delete(t.ctx, pg, n)
 	if err != nil {
 		return fmt.Errorf("deleting block: %w", err)
